@@ -1577,7 +1577,11 @@ def run(ck):
         "unit names in containers are identifiers (what pint produces); other keys are exercised by the oracles only",
         "exception `args` is compared only for classes that keep their data there (no __init__ of their own): for the others "
         "BaseException.__new__ records the call's positional arguments, which legitimately differ after defaults are filled in",
-        "aliasing between a registry and its deep copy is covered by K (probe sets), not by a theorem",
+        "deep-copy independence is a theorem over a heap model (Model/SerialHeap.v: cells, references, path-addressed "
+        "operations); that pint's registry graph and its deepcopy have that shape (no mutable container reachable from both) is "
+        "checked on the real objects by the structural oracle `shared_mutables` and the probe sets, not proved",
+        "lazy = explicit is a theorem for every constructor function; that LazyRegistry.__init runs the ordinary constructor "
+        "(class swap) is checked by K (first-touch paths, tables, probes)",
     ]
     ck.trusted += ["T5 translator harness/t5_errors.py (ast reading of pint's exception classes; fail-closed)",
                    "flexparser.ParsingError defines no __init__/__reduce__ (checked by T5 on its source)"]
